@@ -116,6 +116,14 @@ int parity_chsize(struct snapraid_parity_handle* handle, struct snapraid_parity*
 void parity_size(struct snapraid_parity_handle* handle, data_off_t* out_size);
 
 /**
+ * Get the size of the parity really present in the files.
+ *
+ * This is the size of the initial part of the parity that can be read,
+ * stopping at the first split file smaller than its expected size.
+ */
+void parity_valid_size(struct snapraid_parity_handle* handle, data_off_t* out_size);
+
+/**
  * Open an already existing parity file.
  */
 int parity_open(struct snapraid_parity_handle* handle, const struct snapraid_parity* parity, unsigned level, int mode, uint32_t block_size, data_off_t limit_size);
